@@ -172,7 +172,9 @@ CLAIMED = {
          '(b) a deterministic scheduler runs REAL threads through thousands of interleavings per run (pre-emption before every access '
          'to state reachable from the shared object; every early single pre-emption point, random double pre-emptions, random 3-thread '
          'schedules; created with / without x; cold / warm / differently-warm caches) and compares every outcome bit-for-bit with the '
-         'serial one; (c) model schedules, incl. the negative witnesses, replayed on the real polynomial cache: predicted vs real outcome.'),
+         'serial one; (c) model schedules, incl. the negative witnesses, replayed on the real polynomial cache: predicted vs real outcome; '
+         '(d) every array reachable from a warmed-up shared fitter is frozen (read-only) and each method called again: an in-place write into '
+         'shared array contents is located and turned into a concrete failing schedule by line-level pre-emption.'),
    note=('Trusted: Lean kernel; axioms propext, Classical.choice, Quot.sound; harness. PARTIAL with respect to the runtime: values '
          'are abstracted by provenance; pre-emption inside NumPy / LAPACK calls on thread-private arrays, the free-threaded build\'s '
          'memory model beyond sequentially consistent attribute accesses, and the idempotent _validated_x / _validated_z flags are '
